@@ -272,7 +272,7 @@ PROPS.update({
         domains=[dict(name='disp', quick=6000, thorough=150000), dict(name='cors', quick=12000, thorough=200000),
                  dict(name='neg', quick=6000, thorough=100000), dict(name='route', quick=8000, thorough=200000)],
         race_domains=[dict(name='disp', quick=480, thorough=12000, args=['-force-conc'])],
-        verdicts=['c19_*'],
+        verdicts=['c19_*'], history_search=True,
         project={'disp': proj_disp_all, 'cors': proj_cors, 'neg': proj_neg, 'route': proj_route_c02},
         prop_files=['props/C19.v'],
         trivial_classes=('empty',),
